@@ -8,6 +8,7 @@ import (
 	"github.com/golang/protobuf/proto"
 	"io"
 	"runtime/debug"
+	"strings"
 
 	"github.com/godaddy/asherah/go/appencryption"
 	pb "github.com/godaddy/asherah/server/go/api"
@@ -175,8 +176,17 @@ func runC19(t *simrt.Tape, o Opts) Outcome {
 			rec, _ := w.Encrypt(se, w.Payload(2))
 			return rec, se
 		}
-		recA, seA := mk("a")
-		recB, _ := mk("b")
+		// partition ids are caller-supplied free text: long ones that agree in their first 64 bytes, and
+		// ones that differ only in white space, are different partitions
+		partA, partB := "a", "b"
+		if !swept {
+			long := strings.Repeat("customer-0123456", 4)
+			pairs := [][2]string{{"a", "b"}, {"a", "b"}, {long + "-alpha", long + "-beta"}, {"line\nbreak", "line break"}, {"tab\tid", "tab id"}}
+			pr := pairs[t.Choose(len(pairs), "partition-pair")]
+			partA, partB = pr[0], pr[1]
+		}
+		recA, seA := mk(partA)
+		recB, _ := mk(partB)
 		if recA == nil || recB == nil {
 			return
 		}
@@ -217,7 +227,7 @@ func runC19(t *simrt.Tape, o Opts) Outcome {
 				var r *pb.SessionRequest
 				switch k {
 				case rqGetOK:
-					r = &pb.SessionRequest{Request: &pb.SessionRequest_GetSession{GetSession: &pb.GetSession{PartitionId: "a"}}}
+					r = &pb.SessionRequest{Request: &pb.SessionRequest_GetSession{GetSession: &pb.GetSession{PartitionId: partA}}}
 				case rqGetEmpty:
 					r = &pb.SessionRequest{Request: &pb.SessionRequest_GetSession{GetSession: &pb.GetSession{PartitionId: ""}}}
 				case rqEncrypt:
